@@ -93,6 +93,14 @@ Proof.
   intros w Hin F. specialize (Hf w Hin F). apply chain_lo_le_hi in C. lia.
 Qed.
 
+Lemma chain_log_drops log log' es : forall i p lo hi,
+  chain log i p lo es hi -> drops hi log log' -> chain log' i p lo es hi.
+Proof.
+  induction es as [|e es IH]; intros i p lo hi; cbn [chain]; auto.
+  intros (x & (R & P) & L & C) Hd. exists x. split; [|split; auto].
+  split; auto. eapply tl_read_drops; eauto. apply chain_lo_le_hi in C. exact C.
+Qed.
+
 (* the k-th entry of a chain *)
 Lemma chain_nth log es : forall i p lo hi k e,
   chain log i p lo es hi -> nth_error es k = Some e ->
